@@ -167,6 +167,14 @@ def cube_specs(draw, max_nd=3, min_nd=0, max_n=40, tails=((), (), (2,), (3,), (1
         if scaffold * _prod(dims[i]["tail"]) <= 36:
             dims[i + 1] = dict(dims[i])
             alias = [i, i + 1]
+            if N >= 4 and draw(st.integers(0, 2)) == 0:
+                # a NEAR copy (wave 1 against wave 2 of a panel question): two late rows swapped, no aliasing
+                data = list(dims[i + 1]["data"])
+                w = len(data) // N
+                r1, r2 = (3 * N) // 4 - 1, (3 * N) // 4
+                data[r1 * w:(r1 + 1) * w], data[r2 * w:(r2 + 1) * w] = data[r2 * w:(r2 + 1) * w], data[r1 * w:(r1 + 1) * w]
+                dims[i + 1]["data"] = data
+                alias = None
     mode = draw(st.sampled_from(["inferred", "exact", "padded"]))
     pads = draw(st.lists(st.integers(1, 3), min_size=nd, max_size=nd))
     return {"N": N, "dims": dims, "shape_mode": mode, "pads": pads,
@@ -206,6 +214,14 @@ def fact_specs(N, dtypes=("float", "int"), max_k=3, dyadic=True, magnitudes=Fals
         valid = draw(st.lists(st.integers(0, 7).map(lambda x: x >= pmiss), min_size=size, max_size=size))
         valid = apply_valid_pattern(valid, N, draw(st.sampled_from(VALID_PATTERNS)))
         vals = apply_row_pattern(vals, N, draw(st.sampled_from(ROW_PATTERNS)), draw(st.sampled_from([2, 3, 8])))
+        if is_dyadic and mode == "plain" and N >= 2 and draw(st.integers(0, 9)) == 0:
+            # a balanced ledger: every column sums to exactly zero (signed amounts), nothing missing - a margin can then
+            # be exactly 0 over cells that are not
+            width = K or 1
+            for col in range(width):
+                vals[(N - 1) * width + col] = -sum(vals[r * width + col] for r in range(N - 1))
+            valid = [True] * size
+            mode = "zero_total"
         junk = draw(st.lists(st.integers(0, 2), min_size=size, max_size=size))
         as_list = draw(st.booleans()) if N >= 1 else False
         return {"K": K, "dtype": dtype, "form": form, "values": vals, "valid": valid, "junk": junk,
@@ -625,7 +641,7 @@ def large_specs(draw, aggs, max_k=10, many_ok=True, min_nd=0):
     """Hundreds to thousands of rows, few or MANY categories (extent ~ N / 3), up to ten fact columns: size-dependent
     paths inside the aggregate functions (buffers, bincount lengths, per-category loops) are crossed.
     The row data is generated from three small integers by expand()."""
-    N = draw(st.sampled_from([256, 300, 1024, 1100, 2048, 2500, 2500, 4096, 65536]))
+    N = draw(st.sampled_from([256, 300, 1024, 1100, 2048, 2500, 2500, 4096, 65536, 131072]))
     nd = draw(st.sampled_from([n for n in [0, 1, 1, 2, 2, 2] if n >= min_nd]))
     recipe = [draw(st.integers(1, 9)), draw(st.integers(0, 9)), draw(st.integers(0, 9))]
     rows = draw(st.sampled_from(["random", "sorted", "sorted", "blocks64", "blocks1024"]))
@@ -633,7 +649,7 @@ def large_specs(draw, aggs, max_k=10, many_ok=True, min_nd=0):
     dims = []
     for i in range(nd):
         many = many_ok and i == 0 and N < 60000 and draw(st.booleans())
-        extent = draw(st.sampled_from([N // 3, 257, 1000])) if many else draw(st.sampled_from([1, 2, 3, 4, 5]))
+        extent = draw(st.sampled_from([N // 3, 257, 1000, 100, 200, 255])) if many else draw(st.sampled_from([1, 2, 3, 4, 5]))
         tail = [] if (many or i > 0) else list(draw(st.sampled_from([(), (), (2,), (3,)])))
         fav = (recipe[1] + i) % extent  # the category most rows get (see expand)
         others = [v for v in range(extent + 1) if v != fav]
@@ -653,7 +669,7 @@ def large_specs(draw, aggs, max_k=10, many_ok=True, min_nd=0):
             # a quarter of the rows outside the favourite category, or only one row in ~200 (very sparse indexes)
             "density": density,
             # missing pattern of facts and weights: hashed (about one row in 11 / 13) or none at all
-            "valid": draw(st.sampled_from(["hashed", "hashed", "all"]))}
+            "valid": draw(st.sampled_from(["hashed", "hashed", "all", "one"]))}
     case["fact"] = None if agg == "count" else {
         "K": draw(st.sampled_from([None, None, 2, max_k])), "dtype": draw(st.sampled_from(["float", "int"])),
         "form": "tuple", "as_list": False, "dyadic": True, "mode": "plain"}
@@ -703,13 +719,16 @@ def expand(case):
         K = f["K"] or 1
         f["values"] = [((i * 7 + a + (i // K) * 3) % 41) - 20 for i in range(N * K)]
         f["valid"] = [((i + b) % 11) != 0 or case.get("valid") == "all" for i in range(N * K)]
+        if case.get("valid") == "one":
+            f["valid"] = [True] * (N * K)
+            f["valid"][((a * 7919 + b * 104729 + c) % N) * K] = False  # a single blank in a long column
         f["junk"] = [i % 3 for i in range(N * K)]
         case["fact"] = f
     if case.get("weights") is not None:
         w = dict(case["weights"])
         if w.get("ones"):
             w["values"] = [1 if w["dtype"] == "int" else 1024] * N
-            w["valid"] = [True] * N if w["dtype"] == "int" else [((i + a) % 13) != 0 or case.get("valid") == "all"
+            w["valid"] = [True] * N if w["dtype"] == "int" else [((i + a) % 13) != 0 or case.get("valid") in ("all", "one")
                                                                  for i in range(N)]
         elif w["dtype"] == "int":
             w["values"] = [(i + c) % 4 for i in range(N)]
@@ -717,7 +736,7 @@ def expand(case):
         else:
             w["values"] = [512 * ((i + c) % 5) for i in range(N)] if w.get("zero_ok", True) else [
                 512 * (1 + (i + c) % 4) for i in range(N)]
-            w["valid"] = [((i + a) % 13) != 0 or case.get("valid") == "all" for i in range(N)]
+            w["valid"] = [((i + a) % 13) != 0 or case.get("valid") in ("all", "one") for i in range(N)]
         w["junk"] = [i % 3 for i in range(N)]
         case["weights"] = w
     case["expanded"] = True
